@@ -1,10 +1,10 @@
 SPECIFICATION MSpec
 CONSTANTS
-  KSet = {"spin", "once", "abool", "done", "barrier", "ref", "managed"}
+  KSet = {"spin", "barrier", "ref", "managed"}
   Procs = {1, 2, 3}
   MaxOps = 5
   OneAtATime = FALSE
   Emit = FALSE
-INVARIANTS ATypeOK MutualExclusion OneWinner CleanOnce RefCount OnePerBreakage DoneSticks
+INVARIANTS ATypeOK MutualExclusion OneWinner CleanOnce RefCount OnePerBreakage NoLostAdd DoneSticks
 VIEW View
 CHECK_DEADLOCK FALSE
